@@ -105,6 +105,21 @@ def wheelOp (st : St) (ws : List String) : St × String :=
       | none => (st, "bad-op")
     | _, _ => (st, "bad-op")
   | "rt" :: _drv :: _loop :: [tasks] => (st, Sim.runLine tasks)
+  | ["dur", _drv, secs] =>
+    -- `sleep(Duration::from_secs(secs))`: deadline = now + duration, or the overflow panic
+    match secs.toNat? with
+    | some secs =>
+      let now := 2 ^ 63 * 1000000000
+      match deadlineAfter now (secs * 1000000000) with
+      | none => (st, "panic")
+      | some d =>
+        match Sleep.new Wheel.new now d with
+        | (w, some _) =>
+          match minTimeout w now with
+          | some t => (st, s!"after {(t + 500000000) / 1000000000}")
+          | none => (st, "ready")
+        | (_, none) => (st, "panic")
+    | none => (st, "bad-op")
   | ["ivx", _drv, sAgo, period] =>
     -- extreme interval parameters (seconds): start = now - sAgo, second tick's deadline
     match sAgo.toNat?, period.toNat? with
